@@ -385,6 +385,16 @@ impl<'a> UserModel<'a> {
         self.model.evaluate()
     }
 
+    /// Lengths of the undo stack, the redo stack and the outgoing diff queue (read only).
+    #[cfg(feature = "ironcalc_verif")]
+    pub fn verif_history_depths(&self) -> (usize, usize, usize) {
+        (
+            self.history.undo_stack.len(),
+            self.history.redo_stack.len(),
+            self.send_queue.len(),
+        )
+    }
+
     /// Returns the list of pending diffs and removes them from the queue
     ///
     /// This is used together with [apply_external_diffs](UserModel::apply_external_diffs) to keep two remote models
